@@ -124,3 +124,121 @@ M.contract('contracts.C17b_shared_objects:harness_suite_instruction_validated_in
                all(r is v for (r, (d, v)) in zip(result, validations(trace))),
            },
            raises_only=())
+
+
+# ============================================================================ shared path values (builtin symbols)
+# A PathDdv is not per execution: `PathConstantSdv.resolve` returns the very same DDV object every time, the SDVs of
+# the builtin directory symbols (EXACTLY_ACT, EXACTLY_TMP, EXACTLY_RESULT, EXACTLY_HOME, ...) are module level
+# objects of cli_default, constant paths of suite instructions live as long as the instruction.  "sandbox contents
+# never carry over from one case to the next": the path a case gets from a shared DDV is a function of the sandbox /
+# home directories of THAT case -- it equals what a DDV that was never used before gives (the standalone run).
+
+from contracts import C04_sandbox as c04
+from exactly_lib.tcfs.hds import HomeDs
+from exactly_lib.tcfs.path_relativity import RelOptionType, RelHdsOptionType
+from exactly_lib.tcfs.tcds import TestCaseDs
+from exactly_lib.type_val_deps.types.path import path_ddvs
+
+P_DDVS = 'exactly_lib.type_val_deps.types.path.path_ddvs'
+
+SDS = c04.SDS         # a real SandboxDs, built by its constructor from a symbolic root directory name
+REL_SDS = OneOf(RelOptionType.REL_ACT, RelOptionType.REL_TMP, RelOptionType.REL_RESULT)
+REL_HDS = OneOf(RelOptionType.REL_HDS_CASE, RelOptionType.REL_HDS_ACT)
+
+
+def _mk_hds(interp, name):
+    from pyvc import fsmodel
+    return interp.call(HomeDs, [fsmodel.mk_path(interp, Str.make(interp, name + '.case_dir')),
+                                fsmodel.mk_path(interp, Str.make(interp, name + '.act_dir'))], {})
+
+
+HDS = Custom(_mk_hds)
+
+
+def _mk_rel_root_ddv(rels):
+    def mk(interp, name):
+        rel = rels.make(interp, name + '.rel')
+        return interp.call(path_ddvs.of_rel_option,
+                           [rel, interp.call(path_ddvs.constant_path_part, [Str.make(interp, name + '.suffix')], {})],
+                           {})
+    return Custom(mk)
+
+
+def _mk_rel_hds_ddv(interp, name):
+    return interp.call(path_ddvs.rel_hds,
+                       [EnumOf(RelHdsOptionType).make(interp, name + '.rel'),
+                        interp.call(path_ddvs.constant_path_part, [Str.make(interp, name + '.suffix')], {})], {})
+
+
+def _mk_stacked_ddv(interp, name):
+    base = _mk_rel_root_ddv(REL_SDS).make(interp, name + '.base')
+    return interp.call(path_ddvs.stacked,
+                       [base, interp.call(path_ddvs.constant_path_part, [Str.make(interp, name + '.stacked')], {})], {})
+
+
+# ---- (a) frame: resolving a path changes nothing in the DDV object, nor in what it holds (resolver, suffix parts)
+M.contract(P_DDVS + ':_PathDdvFromRelRootResolver.value_post_sds',
+           params=dict(self=_mk_rel_root_ddv(REL_SDS), sds=SDS), inline=True, modifies={},
+           ensures={'a path': lambda result: result is not None}, raises_only=())
+M.contract(P_DDVS + ':_PathDdvFromRelRootResolver.value_pre_sds',
+           params=dict(self=_mk_rel_root_ddv(REL_HDS), hds=HDS), inline=True, modifies={},
+           ensures={'a path': lambda result: result is not None}, raises_only=())
+M.contract(P_DDVS + ':_PathDdvRelHds.value_pre_sds',
+           params=dict(self=Custom(_mk_rel_hds_ddv), hds=HDS), inline=True, modifies={},
+           ensures={'a path': lambda result: result is not None}, raises_only=())
+M.contract(P_DDVS + ':_StackedPathDdv.value_post_sds',
+           params=dict(self=Custom(_mk_stacked_ddv), sds=SDS), inline=True, modifies={},
+           ensures={'a path': lambda result: result is not None}, raises_only=())
+
+
+# ---- (b) two cases, one shared DDV
+
+def harness_shared_sandbox_path_resolved_in_two_cases(rel_option, name, sds_a, sds_b):
+    """the DDV of a builtin symbol such as EXACTLY_TMP (one object per process) is resolved in case A (sandbox
+    sds_a) and then in case B (sandbox sds_b); `alone`: what case B gets in a process of its own"""
+    shared = path_ddvs.of_rel_option(rel_option, path_ddvs.constant_path_part(name))
+    shared.value_post_sds(sds_a)
+    shared.value_of_any_dependency(TestCaseDs(None, sds_a))
+    in_b = shared.value_post_sds(sds_b)
+    in_b_any = shared.value_of_any_dependency(TestCaseDs(None, sds_b))
+    alone = path_ddvs.of_rel_option(rel_option, path_ddvs.constant_path_part(name))
+    return (str(in_b) == str(alone.value_post_sds(sds_b))
+            and str(in_b_any) == str(alone.value_of_any_dependency(TestCaseDs(None, sds_b))))
+
+
+M.contract('contracts.C17b_shared_objects:harness_shared_sandbox_path_resolved_in_two_cases',
+           params=dict(rel_option=REL_SDS, name=Str, sds_a=SDS, sds_b=SDS),
+           ensures={'the second case gets the path in ITS sandbox: the same as in a run of its own': lambda result: result},
+           raises_only=())
+
+
+def harness_shared_home_path_resolved_in_two_cases(rel_option, name, hds_a, hds_b):
+    """same for paths relative the home directories (each case has its own: [conf] home / act-home)"""
+    shared = path_ddvs.of_rel_option(rel_option, path_ddvs.constant_path_part(name))
+    shared.value_pre_sds(hds_a)
+    in_b = shared.value_pre_sds(hds_b)
+    alone = path_ddvs.of_rel_option(rel_option, path_ddvs.constant_path_part(name))
+    return str(in_b) == str(alone.value_pre_sds(hds_b))
+
+
+M.contract('contracts.C17b_shared_objects:harness_shared_home_path_resolved_in_two_cases',
+           params=dict(rel_option=REL_HDS, name=Str, hds_a=HDS, hds_b=HDS),
+           ensures={'the second case gets the path in ITS home directories: the same as in a run of its own': lambda result: result},
+           raises_only=())
+
+
+def harness_shared_stacked_path_resolved_in_two_cases(rel_option, name, name2, sds_a, sds_b):
+    """same for a path built on a (shared) base path: `@[EXACTLY_TMP]@/sub`"""
+    shared = path_ddvs.stacked(path_ddvs.of_rel_option(rel_option, path_ddvs.constant_path_part(name)),
+                               path_ddvs.constant_path_part(name2))
+    shared.value_post_sds(sds_a)
+    in_b = shared.value_post_sds(sds_b)
+    alone = path_ddvs.stacked(path_ddvs.of_rel_option(rel_option, path_ddvs.constant_path_part(name)),
+                              path_ddvs.constant_path_part(name2))
+    return str(in_b) == str(alone.value_post_sds(sds_b))
+
+
+M.contract('contracts.C17b_shared_objects:harness_shared_stacked_path_resolved_in_two_cases',
+           params=dict(rel_option=REL_SDS, name=Str, name2=Str, sds_a=SDS, sds_b=SDS),
+           ensures={'the second case gets the path in ITS sandbox: the same as in a run of its own': lambda result: result},
+           raises_only=())
